@@ -27,7 +27,7 @@ RefInit(e) ==
    done |-> FALSE, signalled |-> FALSE, tSig |-> 0, tLastIn |-> 0, tFirstByte |-> -1, tShut |-> -1, tIdle |-> 0,
    lastEnded |-> [status |-> 0, m |-> "", total |-> 0, bodiless |-> FALSE], stalled |-> FALSE, wroteAny |-> FALSE,
    maxHeld |-> 0, tHead1 |-> -1, kaMayHaveFired |-> FALSE, anyCut |-> FALSE, doneErr |-> FALSE, tFinal |-> -1, sigTok |-> 0, t408 |-> -1, wpend |-> FALSE,
-   mem0 |-> -1, tAct |-> 0, tEof |-> -1, tAns |-> 0, unlimited |-> (e.sock.budget < 0)]
+   mem0 |-> -1, tAct |-> 0, tEof |-> -1, tAns |-> 0, closeI |-> 0, closeFed |-> -1, unlimited |-> (e.sock.budget < 0)]
 
 NReq(rs) == Len(rs.gt)
 Faulted(rs) == rs.rstFed \/ (rs.eofFed /\ ~rs.cfg.half_closed)
@@ -40,6 +40,13 @@ MustClose(q, p, cfg) == q.conn = "close" \/ (q.ver = 10 /\ q.conn # "keep-alive"
 AnnouncesClose(e) == e.conn = "close" \/ (e.ver = 10 /\ e.conn # "keep-alive")
 MayCloseAnyway(rs, q, p) == (q.blen > 0 /\ p.read # "all") \/ rs.signalled \/ q.upgrade
 
+(* closeFed: how much had been fed when both the closing response had been written and the request it answers had been   *)
+(* sent completely.  A request that starts at or beyond that offset arrived in a later read than anything the connection *)
+(* still had to look at (the known deviation - requests already received are served after a closing response - does not  *)
+(* cover it).                                                                                                            *)
+ClosingReqFed(rs, i, fed) == i < 1 \/ i > NReq(rs) \/ fed >= rs.gt[i].end
+ArrivedLater(rs, i) == rs.closeFed >= 0 /\ i >= 1 /\ i <= NReq(rs) /\ rs.gt[i].start >= rs.closeFed
+AfterFinalSig(rs, what, i) == "C03/" \o what \o "/after-final/" \o rs.finalWhy \o (IF ArrivedLater(rs, i) THEN "/arrived-later" ELSE "")
 (* ---------------------------------------------------------------------------------- *)
 OnCall(rs, e) ==
   LET i == e.i IN
@@ -51,7 +58,7 @@ OnCall(rs, e) ==
        E({"C06"}, ~rs.signalled,
          [rs EXCEPT !.called = i, !.bin = 0, !.binDone = FALSE],
          "C06/Call/after-shutdown-signal"),
-       "C03/Call/after-final/" \o rs.finalWhy),
+       AfterFinalSig(rs, "Call", i)),
       "C01/Call/before-its-head-was-sent"),
      "C01/Call/after-rejection-point/" \o rs.rej.cls),
     "C01/Call/request-differs-from-what-was-sent"),
@@ -70,7 +77,14 @@ OnBodyEnd(rs, e) ==
   THEN E({"C01"}, rs.rej.at # i, 
         E({"C01"}, e.n = rs.gt[i].blen, [rs EXCEPT !.binDone = TRUE], "C01/BodyEnd/clean-end-at-wrong-length"),
         "C01/BodyEnd/clean-end-of-malformed-body/" \o rs.rej.cls)
-  ELSE E({"C01"}, rs.eofFed \/ rs.rstFed \/ rs.rej.at # 0 \/ rs.done, rs, "C01/BodyEnd/error-for-a-well-formed-body")
+  ELSE LET allSent == rs.fed >= rs.gt[i].end /\ ~rs.rstFed /\ rs.rej.at = 0 /\ ~rs.done /\ i = rs.called /\ rs.cfg.half_closed
+           \* a handler that reads without pausing has taken every byte that was fed before the end of input was signalled
+           eager == rs.pf[i].read = "all" /\ (IF "pend" \in DOMAIN rs.pf[i] THEN rs.pf[i].pend = 0 ELSE TRUE) /\ (IF "bpend" \in DOMAIN rs.pf[i] THEN rs.pf[i].bpend = 0 ELSE TRUE) IN
+       E({"C01"}, rs.eofFed \/ rs.rstFed \/ rs.rej.at # 0 \/ rs.done,
+        E({"C06"}, ~(rs.signalled /\ allSent /\ eager),
+         E({"C01"}, ~(allSent /\ eager), rs, "C01/BodyEnd/error-although-body-was-sent-completely"),
+         "C06/Graceful/in-flight-body-cut"),
+        "C01/BodyEnd/error-for-a-well-formed-body")
 
 OnResp(rs, e) ==
   IF e.interim THEN
@@ -126,14 +140,15 @@ OnResp(rs, e) ==
           "C02/Resp/status"),
          "C02/Resp/version"),
         IF e.i <= rs.nresp THEN "C02/Resp/second-response-to-a-request" ELSE "C02/Resp/not-in-request-order"),
-   "C03/Resp/after-final/" \o rs.finalWhy)
+   AfterFinalSig(rs, "Resp", e.i))
 
 Closed(rs, cur, e) == 
   LET s1 == [rs EXCEPT !.answered = @ + 1, !.cur = NoCur,
                        !.lastEnded = [status |-> cur.status, m |-> (IF cur.i >= 1 /\ cur.i <= NReq(rs) THEN rs.gt[cur.i].m ELSE ""),
                                       total |-> (IF cur.i >= 1 /\ cur.i <= NReq(rs) THEN rs.pf[cur.i].total ELSE 0), bodiless |-> cur.bodiless]]
   IN IF cur.closing THEN [s1 EXCEPT !.final = TRUE, !.tFinal = e.t, !.tAct = e.t, !.tAns = e.t,
-                                    !.finalWhy = (IF cur.standalone THEN "error-response" ELSE "close-response")]
+                                    !.finalWhy = (IF cur.standalone THEN "error-response" ELSE "close-response"),
+                                    !.closeI = cur.i, !.closeFed = IF ClosingReqFed(rs, cur.i, rs.fed) THEN rs.fed ELSE -1]
      ELSE [s1 EXCEPT !.tAct = e.t, !.tAns = e.t]
 
 OnRespEnd(rs, e) ==
@@ -241,17 +256,22 @@ OnDone(rs, e) ==
 OnEnd(rs, e) ==
   IF ~rs.epi THEN rs
   ELSE
+   \* after the shutdown signal the request in flight is still answered (everything it needs has been supplied by the epilogue)
+   E({"C06"}, ~(rs.signalled /\ rs.called > rs.answered + (IF rs.cur.k # 0 THEN 1 ELSE 0) /\ ~Faulted(rs) /\ ~rs.rstFed /\ ~rs.anyCut
+                /\ ~rs.doneErr /\ rs.rej.at = 0 /\ ~SomeBodyFails(rs) /\ rs.unlimited),
    E({"C04"}, e.done \/ (rs.sock.shutdown = "never" /\ rs.cfg.disc_ms = 0), 
     LET want == IF rs.rej.at # 0 THEN rs.rej.at - 1 ELSE NReq(rs) IN
     E({"C01"}, ~e.done \/ rs.final \/ Faulted(rs) \/ rs.called >= want \/ rs.kaMayHaveFired \/ rs.anyCut \/ rs.doneErr \/ ChunkDrop(rs),
      E({"C01"}, ~e.done \/ rs.rej.at = 0 \/ rs.errResp \/ rs.final \/ Faulted(rs) \/ rs.kaMayHaveFired \/ rs.anyCut \/ rs.doneErr, rs,
        IF rs.rej.kind = "chunk" THEN "C01/End/malformed-chunk-not-answered-4xx" ELSE "C01/End/malformed-head-not-answered-4xx/" \o rs.rej.cls),
      "C01/End/sent-request-never-dispatched"),
-    "C04/End/connection-not-terminated")
+    "C04/End/connection-not-terminated"),
+   "C06/Graceful/in-flight-request-not-answered")
 
 
 RefStep0(rs, e) ==
-  CASE e.ev = "Feed"     -> [rs EXCEPT !.fed = @ + e.n, !.tLastIn = IF e.n > 0 THEN e.t ELSE @, !.tAct = e.t,
+  CASE e.ev = "Feed"     -> [rs EXCEPT !.fed = @ + e.n,
+                                       !.closeFed = IF rs.final /\ @ < 0 /\ ClosingReqFed(rs, rs.closeI, rs.fed + e.n) THEN rs.fed + e.n ELSE @, !.tLastIn = IF e.n > 0 THEN e.t ELSE @, !.tAct = e.t,
                                        !.tHead1 = IF NReq(rs) > 0 /\ @ < 0 /\ rs.fed + e.n >= rs.gt[1].headlen THEN e.t ELSE @]
     [] e.ev = "Eof"      -> [rs EXCEPT !.eofFed = TRUE, !.tAct = e.t, !.tEof = IF @ < 0 THEN e.t ELSE @]
     [] e.ev = "Rst"      -> [rs EXCEPT !.rstFed = TRUE]
